@@ -210,7 +210,9 @@ class C15(Property):
         regs = {}
         for i in range(case["nthreads"] - 1):
             mine = rng.sample(aliases, rng.randint(1, 3))
-            regs[f"T{i}"] = [{"alias": a, "how": rng.choice(["register", "overload"]), "tag": f"{a}@T{i}"} for a in mine]
+            # "overload-failing": one decorator call with a list of aliases whose SECOND member is unhashable -- it raises
+            # TypeError half-way; what it leaves behind of its own aliases is its business, the others' registrations are not
+            regs[f"T{i}"] = [{"alias": a, "how": rng.choice(["register", "overload", "overload", "overload-failing"]), "tag": f"{a}@T{i}"} for a in mine]
         case["regs"] = regs
         case["evals"] = [rng.choice(aliases + ["zz"]) for _ in range(rng.randint(2, 5))]
         case["n_datasets"] = rng.choice([1, 1, 2])
@@ -438,6 +440,7 @@ class C15(Property):
 
         datasets = [mk(f"DS{i}") for i in range(case["n_datasets"])]
         reg_iv = {}  # alias -> list of (invoke, return, tag)
+        maybe_iv = {}  # the same for registrations that failed half-way (their own alias may or may not be registered)
         final = {}
 
         for tid, regs in case["regs"].items():
@@ -446,10 +449,19 @@ class C15(Property):
                     sched.yield_point("op")
                     a = sched.stamp(("register-invoke", r["alias"], r["tag"]))
                     entry = [a, float("inf"), r["tag"]]
-                    reg_iv.setdefault(r["alias"], []).append(entry)
+                    (maybe_iv if r["how"] == "overload-failing" else reg_iv).setdefault(r["alias"], []).append(entry)
                     for ds in datasets:
                         if r["how"] == "register":
                             ds.register(r["alias"], Value(("impl", r["tag"])))
+                        elif r["how"] == "overload-failing":
+                            def impl(tag=r["tag"]):
+                                return ("impl", tag)
+
+                            impl.__name__ = "impl_" + r["tag"].replace("@", "_")
+                            try:
+                                ds.overload([r["alias"], ["unhashable", "alias"]])(dataset.nocache(impl))
+                            except TypeError:
+                                res.bump("registrations_failing_half_way")
                         else:
                             def impl(tag=r["tag"]):
                                 return ("impl", tag)
@@ -482,6 +494,7 @@ class C15(Property):
                     if not any(b < c for a, b, _ in ivs):
                         ok.append(("default", ds.__name__))
                     ok.extend(("impl", tag) for a, b, tag in ivs if a <= d)
+                    ok.extend(("impl", tag) for a, b, tag in maybe_iv.get(alias, []) if a <= d)
                     if got not in ok:
                         res.violate("evaluation-saw-no-consistent-table", alias=alias, got=crepr(got), acceptable=[crepr(x) for x in ok], interval=[c, d])
                         return
@@ -493,7 +506,7 @@ class C15(Property):
             for alias, ivs in reg_iv.items():
                 for ds in datasets:
                     got = ds({"M": alias})
-                    if got not in [("impl", tag) for _, _, tag in ivs]:
+                    if got not in [("impl", tag) for _, _, tag in ivs + maybe_iv.get(alias, [])]:
                         res.violate("registered-overload-lost", alias=alias, dataset=ds.__name__, got=crepr(got), registered=[t for _, _, t in ivs],
                                     table=sorted(map(str, ds.overloads.lookup)))
                         return
